@@ -151,6 +151,8 @@ def _worker(conn, pid, tier, base_seed):
   sys.setswitchinterval(1e-4)
   try:
     check = _load_check(pid)
+    from worlds import common as _wc
+    _wc.TIER = tier
     sent_universe = False
     while True:
       msg = conn.recv()
